@@ -21,6 +21,7 @@ import (
 	"github.com/tikv/pd/server/config"
 	"github.com/tikv/pd/server/core"
 	"verif/checks/srvh"
+	"verif/engine/evidence"
 	"verif/engine/explore"
 	"verif/engine/fakeetcd"
 	"verif/engine/hist"
@@ -52,10 +53,16 @@ type ack struct {
 }
 
 func gcScenario(name string, vals [][]uint64, pre int, tiers string) *explore.Scenario {
-	return &explore.Scenario{Name: name, MaxPre: pre, Tiers: tiers, Setup: func() *explore.Instance {
+	return gcScenarioF(name, vals, pre, 0, tiers)
+}
+
+// gcScenarioF: dev > 0 = storage reads and writes may fail (refused / reply lost), at most dev of them.
+func gcScenarioF(name string, vals [][]uint64, pre, dev int, tiers string) *explore.Scenario {
+	return &explore.Scenario{Name: name, MaxPre: pre, MaxDev: dev, Tiers: tiers, Setup: func() *explore.Instance {
 		vclock.Enable(vclock.Epoch)
 		st := fakeetcd.New()
 		s := bootServer(st)
+		st.FaultReads, st.FaultWrites = dev > 0, dev > 0
 		var acks []ack
 		seq := 0
 		var writes []uint64
@@ -99,6 +106,7 @@ func gcScenario(name string, vals [][]uint64, pre int, tiers string) *explore.Sc
 		}
 		return &explore.Instance{Names: names, Threads: th, Check: func(r *sched.Run) (string, *explore.Violation) {
 			defer s.Close()
+			st.FaultReads, st.FaultWrites = false, false
 			// epilogue: a sequential read and a low-valued update make a regression visible
 			// to the acknowledgement clause as well
 			a := ack{who: "get", inv: seq}
@@ -536,17 +544,74 @@ func (m *svcModel) Key() string {
 	return strings.Join(l, ",")
 }
 
+// manyServices: more registered services than one storage page (the loader reads the service
+// safe points through a range scan): n services "br-NNN" at 100, the collector's own entry at
+// 50, one service that sorts last ("ticdc") at 60, then renewals / removals; every step is
+// judged by the same per-operation oracle and reference as the service-safepoints scope.
+func manyServices(tier string, rep *evidence.Reporter, cov *evidence.Coverage) {
+	sizes := []int{98, 99, 100, 101, 150}
+	if tier == "thorough" {
+		sizes = []int{1, 50, 97, 98, 99, 100, 101, 102, 150, 199, 200, 201, 250, 400}
+	}
+	var steps int64
+	m := newSvcModel(false)
+	for _, n := range sizes {
+		for _, first := range []string{"gc_worker", "br"} {
+			var ops []svcOp
+			gc := svcOp{kind: "upd", service: "gc_worker", ttl: math.MaxInt64, sp: 50}
+			if first == "gc_worker" {
+				ops = append(ops, gc)
+			}
+			for i := 0; i < n; i++ {
+				ops = append(ops, svcOp{kind: "upd", service: fmt.Sprintf("br-%03d", i), ttl: 50, sp: 100})
+			}
+			if first != "gc_worker" {
+				ops = append(ops, gc)
+			}
+			ops = append(ops,
+				svcOp{kind: "upd", service: "ticdc", ttl: 50, sp: 60},
+				svcOp{kind: "upd", service: "ticdc", ttl: 50, sp: 70},
+				svcOp{kind: "upd", service: "br-000", ttl: 50, sp: 110},
+				svcOp{kind: "upd", service: "gc_worker", ttl: math.MaxInt64, sp: 55},
+				svcOp{kind: "upd", service: "ticdc", ttl: 0, sp: 10},
+				svcOp{kind: "tick", adv: 6 * time.Second},
+				svcOp{kind: "upd", service: "zz", ttl: 5, sp: 56},
+				svcOp{kind: "tick", adv: 6 * time.Second},
+				svcOp{kind: "upd", service: "br-001", ttl: 50, sp: 120},
+			)
+			m.ops = ops
+			m.Reset()
+			for i := range ops {
+				steps++
+				if v := m.Apply(i); v != nil {
+					rep.Report(&evidence.Violation{Scenario: "many-services", Key: v.Key, Message: fmt.Sprintf("n=%d first=%s step %d (%s): %s", n, first, i, ops[i], v.Msg), Replay: []int{n, i}})
+					break
+				}
+			}
+		}
+	}
+	cov.States += steps
+	cov.Transitions += steps
+	cov.Evaluations += steps
+	cov.TracesValidatedAgainstImpl += int64(2 * len(sizes))
+	cov.Scenarios = append(cov.Scenarios, map[string]interface{}{"scope": "many-services", "registered_services": sizes, "handler_calls_judged": steps})
+	fmt.Printf("C15 many-services sizes=%v handler-calls=%d\n", sizes, steps)
+}
+
 func main() {
 	defer srvh.Cleanup()
 	explore.Main(&explore.Config{
 		Property: "C15",
+		Extra:    manyServices,
 		Scenarios: []*explore.Scenario{
 			gcScenario("2x1", [][]uint64{{20}, {10}}, 2, "quick"),
 			gcScenario("2x2", [][]uint64{{10, 30}, {20}}, 2, "quick"),
 			gcScenario("3x1", [][]uint64{{30}, {20}, {10}}, 2, "quick"),
+			gcScenarioF("2x2/storage-faults", [][]uint64{{30, 10}, {20}}, 1, 1, "quick"),
 			svcScenario("service-concurrent", 2, "quick"),
 			svcScenario("service-concurrent@3", 3, "thorough"),
 			gcScenario("3x2@3", [][]uint64{{10, 30}, {20, 20}, {30, 10}}, 3, "thorough"),
+			gcScenarioF("2x2/storage-faults@2", [][]uint64{{30, 10}, {20}}, 2, 2, "thorough"),
 		},
 		HistScopes: []*hist.Scope{
 			{Name: "service-safepoints", Tiers: "quick", Depth: 3, NewModel: func() hist.Model { return newSvcModel(false) }},
